@@ -255,7 +255,12 @@ def gradient_oracle(ctx, rng, n_geom):
                     ctx.count("gradient_reference_bundle_not_evaluable")      # evaluability is the business of oracle()
                     continue
                 bl, bt = rr0.corr_constants['ff']['Re_bnds']
-                for Re in (10.0, 300.0, bl, rng.uniform(bl, 2 * bl), 5.0e3, rng.uniform(0.6 * bt, bt), bt * (1 - 1e-9), bt, 1.0e5, 1.0e6):
+                # the laminar boundaries of the two Cheng-Todreas families (written down here independently): a Reynolds number between
+                # them is laminar for one family and in transition for the other
+                pd_ = dims['pin_pitch'] / dims['pin_diameter']
+                bl_ctd, bl_uctd = 300.0 * 10 ** (1.7 * (pd_ - 1.0)), 320.0 * 10 ** (pd_ - 1.0)
+                for Re in (10.0, 300.0, bl, rng.uniform(bl, 2 * bl), 0.5 * (bl_ctd + bl_uctd), 1.03 * max(bl_ctd, bl_uctd),
+                           0.97 * min(bl_ctd, bl_uctd), 5.0e3, rng.uniform(0.6 * bt, bt), bt * (1 - 1e-9), bt, 1.0e5, 1.0e6):
                     mfr = Re * 2.5e-4 * rr0.bundle_params['area'] / rr0.bundle_params['de']
                     rr = du.make_rr(dims, flow_rate=mfr, coolant=cool, corr=corr, spacer_grid=grid)
                     rr.z = [0.0, 1.0]
